@@ -348,6 +348,23 @@ pub fn run(ctx: &Ctx, rep: &mut Report) {
         acc.nontrivial = acc.cases;
         rep.add_space(&format!("slot-wise: all 9^{} tuples over two ranks x four suits + blank, plus every slot pair x every S53 symbol pair, size {}", n, n), &acc, t0, "");
     }
+    // call histories
+    {
+        let d = deck();
+        let mut items: Vec<Case> = (0..53).step_by(4).map(|i| Case::w32("card.shift", &[sigma53(i)])).collect();
+        for n in 2..=7usize {
+            for k in 0..4usize {
+                let mut w: Vec<u32> = (0..n).map(|i| d[(k * 13 + i * 3 + n) % 52].word()).collect();
+                items.push(Case::w32(&format!("{}.shift_slotwise", AnyHand::size_name(n)), &w));
+                if n >= 5 {
+                    items.push(Case::w32(&format!("{}.shift_value", AnyHand::size_name(n)), &w));
+                }
+                w[k % n] = 0;
+                items.push(Case::w32(&format!("{}.shift_slotwise", AnyHand::size_name(n)), &w));
+            }
+        }
+        super::history2(rep, judge, &items);
+    }
     // value clause
     value_space(ctx, rep, 5, 3, true);
     value_space(ctx, rep, 6, 3, thorough);
